@@ -67,7 +67,9 @@ def run_script(drv, cmds, metas, spool_parent, keep_spool=False, mode='root', pr
         try: ev.append(json.loads(l))
         except Exception: ev.append({'e': 'Garbled'})
     # attach request metadata in order
-    ai = sorted(metas)
+    ai = sorted(i for i in metas if isinstance(metas[i], list))
+    hi = [metas[i] for i in sorted(metas) if isinstance(metas[i], dict)]
+    hk = 0
     k = 0
     cur = 0
     for e in ev:
@@ -79,6 +81,7 @@ def run_script(drv, cmds, metas, spool_parent, keep_spool=False, mode='root', pr
             e['nfooter'] = e.get('reply', '').count('END:VCALENDAR')
             e.pop('reply', None)
         elif e['e'] == 'Http':
+            if hk < len(hi): e.update(hi[hk]); hk += 1
             body = e.get('reply', '')
             e['status'] = int(body[9:12]) if body.startswith('HTTP/1.1 ') else 0
             b = body.split('\r\n\r\n', 1)[1] if '\r\n\r\n' in body else ''
@@ -145,4 +148,54 @@ def random_script(rnd, ntasks=3, peers=(1000,), horizon=14, maxsims=(0, 0, 1, 2)
     for _ in range(3):
         cmds += ['T\t%d' % (horizon * 3 + 5), 'R', 'DA'] + ['XI\t0', 'DA'] * 8
     cmds.append('Q')
+    return cmds, metas
+
+
+def colliding_uids(drv, wd, n=150000):
+    """groups of UID strings whose table keys share many low bits (found with the real hash)"""
+    out = subprocess.run([drv, wd, 'uids', str(n)], capture_output=True, text=True, timeout=120).stdout
+    by = {}
+    res = []
+    for l in out.split('\n'):
+        if not l: continue
+        u, h = l.split(); h = int(h)
+        for bits in (16, 12, 8, 4):
+            by.setdefault((bits, h & ((1 << bits) - 1)), []).append(u)
+    for bits in (16, 12, 8, 4):
+        gs = [v for (b, _), v in by.items() if b == bits and len(v) >= 2]
+        gs.sort(key=len, reverse=True)
+        res += [(bits, g[:4]) for g in gs[:6]]
+    return res
+
+
+def map_script(rnd, uidpool, peers=(1000, 1001, 1002, 0, 4242), nreq=8):
+    """requests only, nothing ever comes due: the queue as a map"""
+    cmds, metas = [], {}
+    FAR = 5000
+    for _ in range(nreq):
+        x = rnd.random(); p = rnd.choice(peers)
+        if x < 0.55:
+            items = []
+            for _ in range(rnd.choice([1, 1, 1, 2, 3])):
+                it = {'kind': 'add', 'uid': rnd.choice(uidpool), 'occ': sorted(set(FAR + rnd.randint(0, 50) for _ in range(rnd.randint(1, 3)))), 'maxsim': 0, 'peer': p}
+                y = rnd.random()
+                if y < 0.15: it['owner_uid'] = rnd.choice([1000, 1001, 1002, 4242])
+                elif y < 0.3: it['owner_name'] = rnd.choice(['alice', 'bob', 'carol', 'nobody-such'])
+                items.append(it)
+            metas[len(cmds)] = items
+            cmds.append('A\t%d\t%s' % (p, rrgen.esc(request(items))))
+        elif x < 0.75:
+            items = [{'kind': 'cancel', 'uid': rnd.choice(uidpool), 'peer': p} for _ in range(rnd.choice([1, 1, 2]))]
+            metas[len(cmds)] = items
+            cmds.append('A\t%d\t%s' % (p, rrgen.esc(request(items, 'CANCEL'))))
+        elif p == 0:
+            continue    # the administrator's own listing is outside the property
+        elif x < 0.85:
+            metas[len(cmds)] = {'what': 'sched'}; cmds.append('H\t%d\tGET /sched HTTP/1.1' % p)
+        elif x < 0.95:
+            metas[len(cmds)] = {'what': 'queue'}; cmds.append('H\t%d\tGET /queue HTTP/1.1' % p)
+        else:
+            q = rnd.choice([u for u in (1000, 1001, 1002) if u != p])
+            if p == 0: continue
+            metas[len(cmds)] = {'what': 'other'}; cmds.append('H\t%d\tGET /u/%d/%s HTTP/1.1' % (p, q, rnd.choice(['sched', 'queue'])))
     return cmds, metas
